@@ -32,7 +32,8 @@ LaneOK(e, r) ==
           /\ Len(e.pIters) = Len(e.texts) /\ Len(e.pN) = Len(e.texts) /\ Len(e.pNnf) = Len(e.texts)
           /\ \A i \in 1 .. Len(e.texts) : e.pIters[i] = i - 1 /\ e.pN[i] = e.facts[2 * i - 1] /\ e.pNnf[i] = e.facts[2 * i]
     \* ... and every field of both report lines is the function of the checkpoint that Report.tla states
-    /\ (Growth /\ Verbose(e.mode) /\ e.world = 0) => ReportOK(e)
+    \* (serial runs and runs on several ranks alike: rank 0 reports for the communicator)
+    /\ (Growth /\ Verbose(e.mode)) => ReportOK(e)
 
 Lane ==
     /\ l <= TraceLen /\ Ev.e = "Lane"
